@@ -4,7 +4,7 @@ CONSTANTS
   Ns = {1, 2, 3}
   Variants = {1, 2, 3, 4, 5, 6, 7, 8, 9, 10, 11, 12, 13}
   Mixed = {FALSE, TRUE}
-  KindPats = {"struct", "enum", "alt"}
+  KindPats = {"struct", "enum", "alt", "enumu"}
   Compacts = {FALSE, TRUE}
   MaxEdges = 9
   Family = "contain"
